@@ -331,6 +331,46 @@ func main() {
 			}
 		}
 	}
+	// Large/odd-shape family: long thin and wide arrays, a power-of-two square, empty sides
+	famCalls := 0
+	for _, sh := range [][2]int{{1, 17}, {17, 1}, {16, 16}, {33, 7}, {7, 33}, {0, 9}, {9, 0}, {2, 64}, {64, 2}} {
+		w, h := sh[0], sh[1]
+		a, g := fresh(w, h)
+		shape := map[string]any{"w": w, "h": h, "family": "odd-shapes"}
+		if d := diff(a, g, w, h); d != "" {
+			e.Fail("Set|aliasing", shape, "%dx%d array after setting every cell: %s", w, h, d)
+			continue
+		}
+		var sel []op
+		for _, y := range []int{-1, 0, h / 2, h - 1, h} {
+			for _, x := range []int{-1, 0, w / 2, w - 1, w} {
+				sel = append(sel, op{"Set", x, y, 0, 0}, op{"Get", x, y, 0, 0})
+			}
+			sel = append(sel, op{"Row", y, 0, 0, 0}, op{"RowSpan", 0, w - 1, y, 0}, op{"RowSpan", w / 2, w - 1, y, 0}, op{"RowSpan", 0, w / 2, y, 0}, op{"RowSpan", w - 1, w - 1, y, 0})
+		}
+		for _, c := range [][4]int{{0, 0, w - 1, h - 1}, {w - 1, h - 1, 0, 0}, {w - 1, 0, 0, h - 1}, {0, h - 1, w - 1, 0}, {w / 2, h / 2, w - 1, 0}, {w / 3, h - 1, w / 2, h / 2}, {0, 0, w, 0}, {0, 0, 0, h}} {
+			sel = append(sel, op{"Fill", c[0], c[1], c[2], c[3]})
+		}
+		sel = append(sel, op{"Clone", 0, 0, 0, 0})
+		val := 500
+		for _, o := range sel {
+			if w == 0 || h == 0 {
+				if o.name == "RowSpan" && o.a > o.b {
+					continue
+				}
+			}
+			if o.name == "RowSpan" && o.a > o.b {
+				continue
+			}
+			famCalls++
+			val += 100
+			if sig, msg := apply(a, g, w, h, o, val); sig != "" {
+				e.Fail(sig, map[string]any{"w": w, "h": h, "family": "odd-shapes", "op": o.String()}, "%s", msg)
+				break
+			}
+		}
+	}
+	r.Set("large_size_family_calls", famCalls)
 	r.Sample(map[string]any{"w": 3, "h": 2, "ops": []string{"Set(2,0,..)", "Get(0,1)"}})
 	e.Finish(fmt.Sprintf("every shape w,h in 0..%d from the all-cells-distinct labelling: every Set/Get with x in -1..w, y in -1..h; Row(y) and RowSpan(x1<=x2,y) incl. out of range with write-through both ways; Fill for every pair of corners in either order incl. one coordinate outside; Clone; String; every ordered pair of operations for shapes up to %dx%d; New2DFilled; New2DFromJagged for every row count 0..h+1 and row lengths 0..w+1; oracle: cell-grid model with frame condition (exactly the intended cells change); non-trivial = non-square shape", maxDim, pairDim, pairDim))
 }
